@@ -359,7 +359,7 @@ def r4_slots(ctx):
             lo_ok = lo is not None and vkey(lo).endswith(f',{vkey(startn)})') and '.geti' in vkey(lo)
             up_ok = up is not None and isinstance(up, Rat) and '.geti' in vkey(up - C(1)) and \
                 vkey(up - C(1)).endswith(f',{vkey(stopn)})')
-            cnt_ok = isinstance(val, Rat) and count_of(val) is not None and count_of(val).eq(stopn - startn + C(1))
+            cnt_ok = count_of(val) is not None and count_of(val).eq(stopn - startn + C(1))
             ok = lo_ok and up_ok and cnt_ok
             detail = f'slice [{vkey(lo)} : {vkey(up)}] = {vkey(val)}'
     ctx.check('R4.slot-range', f'{site(a)} slice', ok, key(a, 'slice'),
@@ -420,7 +420,12 @@ def lower_upper(ev, a, node, nv, mv):
 
 
 def count_of(val):
-    """k such that val = [x] * k  (evaluated as mult(list, k))"""
+    """k such that val = [x] * k"""
+    from ..vg import SymList
+    if isinstance(val, SymList):
+        return val.length if val.segs and len(val.segs) == 1 and val.segs[0][0] == '0' else None
+    if not isinstance(val, Rat):
+        return None
     a = val.single_atom()
     if a is not None and a.kind == 'fn' and a.name == 'mult' and len(a.args) == 2 and isinstance(a.args[1], Rat):
         return a.args[1]
